@@ -521,7 +521,6 @@ func (db *DB) SetReadOnly() error {
 	select {
 	case db.writeLockC <- struct{}{}:
 		verifEvent(200, 7, 0)
-		db.compWriteLocking = true
 		verifEvent(VerifEvROLock, 0, 0)
 	case err := <-db.compPerErrC:
 		return err
@@ -529,14 +528,21 @@ func (db *DB) SetReadOnly() error {
 		return ErrClosed
 	}
 
-	// Set compaction read-only.
+	// Set compaction read-only. The write lock is handed over to the
+	// compactionError goroutine together with ErrReadOnly (it releases the
+	// lock when the DB is closed); if the hand-over does not happen the
+	// lock is still ours and must be released here.
 	select {
 	case db.compErrSetC <- ErrReadOnly:
 		verifEvent(205, 7, 0)
 		verifEvent(VerifEvROSent, 0, 0)
 	case perr := <-db.compPerErrC:
+		verifEvent(201, 7, 0)
+		<-db.writeLockC
 		return perr
 	case <-db.closeC:
+		verifEvent(201, 7, 0)
+		<-db.writeLockC
 		return ErrClosed
 	}
 
